@@ -3,6 +3,7 @@
 // the invariant is evaluated inside every iteration while a simulated user
 // drags (locks) and resizes nodes and may stop the layout at any iteration.
 #include "core.h"
+#include "sigs.h"
 #include "geom.h"
 #include "mix_gen.h"
 #include "libavoid/libavoid.h"
@@ -156,8 +157,8 @@ struct TopoSession : Session {
             phase = topology::verif_topology_phase;
 #endif
             std::string file = strstr(f.file, "lib") ? strstr(f.file, "lib") : f.file;
-            if (file.find("libtopology") != std::string::npos) return fmt("assert@%s:%d/phase=%d", file.c_str(), f.line, phase);
-            return fmt("assert@%s:%d", file.c_str(), f.line);
+            if (file.find("libtopology") != std::string::npos) return assertSig(f) + fmt("/phase=%d", phase);
+            return assertSig(f);
         }
         catch (std::exception &e) { return "std::exception"; }
         catch (const char *) { return "char*"; }
